@@ -240,8 +240,15 @@ fn replay_one(cfg: &Cfg, idx: u64, path: &[Value], exp: &Value, dr: &Value, s: &
     }
     if let Some(p) = problem {
         s.n_mismatch += 1;
-        if s.mismatches.len() < 20 {
-            s.mismatches.push(json!({"what": p, "path": path, "exp": exp, "got": got,
+        // keep examples of both kinds: histories with an off-grid modify request (a listed known
+        // finding lives there) and histories without, so that neither hides the other
+        let offgrid = cfg.tick > 1 && path.iter().any(|l| {
+            (l["op"] == "modify" || (l["op"] == "event" && l["k"] == "modify"))
+                && l["p"].as_i64().map(|x| x >= 0 && x % (cfg.tick as i64) != 0).unwrap_or(false)
+        });
+        let kept = s.mismatches.iter().filter(|m| m["offgrid_modify"] == json!(offgrid)).count();
+        if kept < 12 {
+            s.mismatches.push(json!({"what": p, "path": path, "exp": exp, "got": got, "offgrid_modify": offgrid,
                 "drain": dr,
                 "cfg": {"levels": cfg.levels, "tick": cfg.tick, "trading": cfg.trading, "t0": cfg.t0}}));
         }
@@ -351,7 +358,10 @@ fn main() {
         tot.trunc_snapshots += s.trunc_snapshots;
         tot.trunc_offsets += s.trunc_offsets;
         tot.drains += s.drains;
-        for m in s.mismatches { if tot.mismatches.len() < 20 { tot.mismatches.push(m) } }
+        for m in s.mismatches {
+            let kept = tot.mismatches.iter().filter(|x| x["offgrid_modify"] == m["offgrid_modify"]).count();
+            if kept < 12 { tot.mismatches.push(m) }
+        }
         for (k, v) in s.feats { *tot.feats.entry(k).or_insert(0) += v }
         for x in s.samples { if tot.samples.len() < 3 { tot.samples.push(x) } }
     }
